@@ -149,7 +149,9 @@ func c10Run(c *c10Case) (exp, act, sig, outcome string, ok bool, steps int, inco
 }
 
 func c10Emit(w *h.W, c *c10Case, size int) {
+	w.Guard(c)
 	exp, act, sig, outcome, ok, steps, inc := c10Run(c)
+	w.Unguard()
 	w.Eval(1)
 	w.States(1)
 	w.Transitions(steps + 1)
@@ -186,18 +188,14 @@ func c10Build(cl T, pre []T, path string, dq string) *c10Case {
 		c.Steps = append(c.Steps, h.Consult(append(append([]T{}, support...), dyn)...))
 		goal := conj(append(append([]T{}, pre...), Cm("assertz", cl))...)
 		c.Steps = append(c.Steps, h.Query(goal, 2))
-		// apply pre's bindings with the reference unifier to know the expected stored clause
-		var tr ref.Trail
-		okb := true
-		for _, g := range pre {
-			gc := ref.ExpandStrings(g, dqOrDefault(dq)).(*ref.Cmp)
-			if !ref.Unify(gc.Args[0], gc.Args[1], &tr) {
-				okb = false
-			}
+		// run pre on the reference machine to know the expected stored clause
+		world := ref.NewWorld(ref.NewDB(), 1000)
+		m := world.NewMachine(ref.ExpandStrings(conj(pre...), dqOrDefault(dq)))
+		if okb, _, err := m.Next(); !okb || err != nil {
+			panic("c10: pre-goals fail in the reference")
 		}
-		_ = okb
 		bound = ref.Resolve(ref.ExpandStrings(cl, dqOrDefault(dq)))
-		tr.Undo(0)
+		world.Trail.Undo(0)
 	}
 	for _, e := range expectedClauses(bound, dqOrDefault(dq)) {
 		c.Expect = append(c.Expect, ref.Enc(e))
@@ -315,6 +313,7 @@ func c10Work(w *h.W) {
 	// S4: variables already bound in the asserting query, observed from later queries
 	pres := [][]string{
 		{"X = a"}, {"X = f(Y)"}, {"X = [a|Y]"}, {"X = Y"}, {"Y = [X]"}, {"X = \"ab\""}, {"X = f(Z)", "Z = b"}, {"X = [Y, Z]"}, {"X = k(1)"},
+		{"append(\"ab\", T, X)"}, {"append('.'(a, []), T, X)"}, {"atom_chars(ab, P)", "append(P, [c|T], X)"}, {"append([a], T, X)", "T = [b]"},
 		{"X = [k-V]", "V = 1"}, {"X = [pair(K, V)]", "V = 2"}, {"X = [[V]]", "V = 3"}, {"X = '.'(V, [])", "V = 4"},
 	}
 	bound := []string{
